@@ -29,6 +29,16 @@ Correspondence streams (real code vs the Lean driver executing those very defini
                     known finding C10-warm-start-converges-cold-does-not: a fixed reproduction runs in every run, random
                     occurrences carry the same key.  No other combination carries it.
 
+  search.weights    the same pipeline with SAMPLE WEIGHTS of every kind handed to gridsearch (`WEIGHT_PATTERNS`: exact zeros at random
+                    rows / as counts / over a whole range of a feature / on most rows / on a single row, tiny but positive, all
+                    weights scaled up or down, explicit ones, fractional, a few heavy rows), full product class kind x pattern in
+                    every run (fixed data: no draw decides), x objective x fitted x keep_best x grid (lam 1-D / 2-D, n_splines, joint)
+                    rotating, PoissonGAM also with exposure.  Oracle: every candidate equals the independent cold fit of the same
+                    hyper-parameters on the SAME (X, y, weights): score, coefficients, statistics_['n_samples'] (exact), edof / deviance
+                    / scale; the kept model is the arg-min of the independent fits (when that is clear of the tolerance) and
+                    carries the statistics of that independent fit.  statistics_['n_samples'] of every candidate is compared in
+                    all the real-fit streams.
+
 Oracle (real code only): the property text, see `_oracle_*`.
 """
 import ast
@@ -297,6 +307,43 @@ def build_model(pygam, spec, over=None, scripted_cls=None):
     raise AssertionError(cls)
 
 
+# sample weights handed to gridsearch (stream search.weights); the first five contain exact zeros
+WEIGHT_PATTERNS = ['zeros-random', 'zeros-counts', 'zeros-range', 'zeros-most', 'zeros-one', 'tiny', 'scaled-up', 'scaled-down',
+                   'ones', 'fractional', 'heavy']
+
+
+def weight_pattern(kind, rs, X):
+    n = X.shape[0]
+    w = rs.uniform(0.5, 2.0, n)
+    if kind == 'zeros-random':          # masked observations
+        w[rs.rand(n) < 0.25] = 0.0
+    elif kind == 'zeros-counts':        # frequency weights, some rows observed 0 times
+        w = rs.randint(0, 3, n).astype(float)
+    elif kind == 'zeros-range':         # a whole range of a feature masked out (the range of the rows that count is smaller)
+        w[X[:, 0] > 0.7] = 0.0
+        w[X[:, 1] < 0.1] = 0.0
+    elif kind == 'zeros-most':
+        w[rs.rand(n) < 0.55] = 0.0
+    elif kind == 'zeros-one':           # one masked observation
+        w[rs.randint(n)] = 0.0
+    elif kind == 'tiny':                # positive, but far below the others
+        w[rs.rand(n) < 0.25] = 1e-6
+    elif kind == 'scaled-up':
+        w = w * 1000.0
+    elif kind == 'scaled-down':
+        w = w * 1e-3
+    elif kind == 'ones':
+        w = np.ones(n)
+    elif kind == 'fractional':
+        w = rs.uniform(0.2, 3.0, n)
+    elif kind == 'heavy':
+        w = np.ones(n)
+        w[rs.choice(n, 3, replace=False)] = 50.0
+    else:
+        raise AssertionError(kind)
+    return w
+
+
 def make_data(spec):
     if spec.get('data_kind') == 'warm-start-repro':
         # the fixed reproduction of the known finding C10-warm-start-converges-cold-does-not (see KNOWN)
@@ -322,7 +369,9 @@ def make_data(spec):
     elif cls == 'GammaGAM':
         y = np.exp(eta) * rs.gamma(5.0, 0.2, n) + 0.05
     w = None
-    if spec.get('weights'):
+    if isinstance(spec.get('weights'), str):
+        w = weight_pattern(spec['weights'], np.random.RandomState(spec['data_seed'] + 104729), X)      # own stream of draws
+    elif spec.get('weights'):
         w = rs.randint(1, 4, n).astype(float)
     e = None
     if spec.get('exposure'):
@@ -434,6 +483,46 @@ def oracle_candidates(spec):
 def stats_of(m):
     st = getattr(m, 'statistics_', None) or {}
     return {k: float(st[k]) for k in OBJ_NAMES if k in st and st[k] is not None}
+
+
+STAT_KEYS = ('n_samples', 'edof', 'deviance', 'scale')
+
+
+def scalar_stats(m):
+    """n_samples, edof, deviance, scale of a fitted model (what is there and is a number)"""
+    st = getattr(m, 'statistics_', None) or {}
+    out = {}
+    for k in STAT_KEYS:
+        try:
+            if k in st and st[k] is not None and np.ndim(st[k]) == 0:
+                out[k] = float(st[k])
+        except Exception:      # noqa
+            pass
+    return out
+
+
+def compare_stats(got, want, thr):
+    """statistics of a model fitted inside the search against those of the independent fit: n_samples exactly, the others
+    relative to their own size; -> None or a description of the first difference"""
+    for k in STAT_KEYS:
+        if k not in want or not np.isfinite(want[k]):
+            continue
+        g = got.get(k)
+        if g is None or g != g:
+            return dict(statistic=k, in_search=g, independent=want[k])
+        if k == 'n_samples':
+            if g != want[k]:
+                return dict(statistic=k, in_search=g, independent=want[k])
+            continue
+        rel = abs(g - want[k]) / max(abs(want[k]), 1e-300)
+        if rel > thr:
+            return dict(statistic=k, in_search=g, independent=want[k], rel=rel, thr=thr)
+    return None
+
+
+def same_stats(a, b):
+    """equality of two statistics dicts; nan (e.g. the AIC of a family whose likelihood is not defined for a zero weight) equals nan"""
+    return sorted(a) == sorted(b) and all(a[k] == b[k] or (a[k] != a[k] and b[k] != b[k]) for k in a)
 
 
 def converged(m):
@@ -673,7 +762,7 @@ def run_real_case(spec):
                     ref = max(ref, 2.0 * abs(float(c.statistics_['loglikelihood'])) + 2.0 * float(c.statistics_['edof']))
                 entry = dict(key=key_json(cand), score=float(c.statistics_[robj]), conv=converged(c), ref=max(ref, 1e-3) if ref == ref else 1.0,
                              ncoef=len(c.coef_), coef=np.array(c.coef_, dtype=float).ravel(), tol=float(c.tol),
-                             pred=c.predict_mu(Xs) if spec['keep_best'] else None)
+                             pred=c.predict_mu(Xs) if spec['keep_best'] else None, stats=scalar_stats(c))
                 # an independent fit that ends with nan / inf (PIRLS diverged without raising) defines no reference
                 entry['nonfinite'] = not cold_entry_finite(entry['score'], entry['coef'])
                 if 'fit_intercept' in over and not over['fit_intercept'][0]:
@@ -759,11 +848,24 @@ def run_real_case(spec):
                     if not any(t.startswith('fit_intercept') for t in res['suspected']):
                         res['suspected'].append('fit_intercept grid is ignored: the candidate with fit_intercept=False is fitted with an intercept '
                                                 '(%d coefficients, an independent fit has %d)' % (na, c['ncoef']))
+                # the candidate was fitted on the data handed to gridsearch: as many samples as the independent fit counts
+                ns_m, ns_c = scalar_stats(m).get('n_samples'), c['stats'].get('n_samples')
+                if ns_c is not None and ns_m != ns_c:
+                    orc.append(dict(kind='candidate was fitted on another number of samples than an independent fit on the same (X, y, weights)',
+                                    key=key, in_search=ns_m, independent=ns_c, rows_given=int(len(ys)), weights=spec.get('weights'), grid_order=where))
+                    break
+                res['n_nsamples_compared'] = res.get('n_nsamples_compared', 0) + 1
                 if c.get('nonfinite'):
                     res['notes']['independent fit not finite'] = res['notes'].get('independent fit not finite', 0) + 1
                     continue
                 cm = compare_with_cold(sc, m, c)
                 ncmp += 1
+                if weighted_stream and cm['ok'] and 'alt' not in c:
+                    d = compare_stats(scalar_stats(m), c['stats'], cm['thr_c'])
+                    if d is not None:
+                        orc.append(dict(d, kind='candidate statistics differ from an independent cold fit on the same (X, y, weights)', key=key,
+                                        weights=spec.get('weights'), grid_order=where))
+                        break
                 if 'alt' not in c and cm['err_s'] == cm['err_s'] and cm['err_s'] != float('inf'):
                     worst = max(worst, cm['err_s'])
                 res['cmp_classes'][(cm['ci'], cm['cc'])] = res['cmp_classes'].get((cm['ci'], cm['cc']), 0) + 1
@@ -792,6 +894,7 @@ def run_real_case(spec):
             return worst, ncmp
 
         res['cmp_classes'] = {}
+        weighted_stream = isinstance(spec.get('weights'), str)
         if res['returned'] == 'self' and wantkeys:
             orc.append(dict(kind='return_scores=True returned self although candidates can be fitted'))
         elif wantkeys != gotkeys:
@@ -859,7 +962,7 @@ def run_real_case(spec):
                         m = items[i][0]
                         mk = models[i]['key']
                         if mk == res['self_key'] and (m is gam or np.array_equal(m.coef_, gam.coef_)) \
-                                and (m is gam or stats_of(m) == res['self_stats']):
+                                and (m is gam or same_stats(stats_of(m), res['self_stats'])):
                             ok = True
                     if not ok:
                         orc.append(dict(kind='self does not hold coefficients/statistics/hyper-parameters of a minimiser',
@@ -887,6 +990,38 @@ def run_real_case(spec):
                                 res['pred_err'] = d
                                 if d > 1e-4 * FAIL_MARGIN:
                                     orc.append(dict(kind='predictions after keep_best differ from an independent fit of the winner', maxrel=d))
+        if weighted_stream and models and spec['keep_best'] and fitted_after and not orc and wantkeys == gotkeys:
+            # the kept model judged by the independent fits alone: contenders = the cold fits (+ the model itself if it was fitted);
+            # when one of them is clear of the others by more than the tolerance of the comparison, it is the one to keep, with the
+            # statistics of that independent fit
+            cont = [(c['score'], c['ref'], c) for c in cold if c['score'] is not None and not c.get('nonfinite')]
+            all_finite = len(cont) == len([c for c in cold if c['score'] is not None])
+            if spec['fitted'] and pre is not None and robj in pre['stats'] and np.isfinite(pre['stats'][robj]):
+                cont.append((pre['stats'][robj], max(abs(pre['stats'][robj]), 1e-3), None))
+            if cont and all_finite:
+                cont.sort(key=lambda t: t[0])
+                best = cont[0]
+                margin = 10.0 * score_rtol(spec.get('tol', 1e-8), True) * FAIL_MARGIN * best[1]
+                clear = len(cont) == 1 or cont[1][0] - best[0] > margin
+                # several grid entries may name the same hyper-parameters: then the runner-up is the same model
+                if not clear and best[2] is not None and all(t[2] is not None and t[2]['key'] == best[2]['key'] for t in cont[1:]
+                                                            if t[0] - best[0] <= margin):
+                    clear = True
+                res['notes']['kept model judged by independent fits'] = bool(clear)
+                if clear:
+                    want_key = best[2]['key'] if best[2] is not None else pre['key']
+                    if res['self_key'] != want_key:
+                        orc.append(dict(kind='the kept model is not the minimiser among independent fits on the same (X, y, weights)',
+                                        kept=res['self_key'], minimiser=want_key, independent_scores=[t[0] for t in cont[:4]],
+                                        weights=spec.get('weights')))
+                    elif best[2] is not None:
+                        d = compare_stats(scalar_stats(gam), best[2]['stats'], coef_rtol(best[2]['tol'], True) * FAIL_MARGIN)
+                        sk = res['self_stats'].get(robj)
+                        if d is None and (sk is None or abs(sk - best[0]) / best[1] > score_rtol(best[2]['tol'], True) * FAIL_MARGIN):
+                            d = dict(statistic=robj, in_search=sk, independent=best[0])
+                        if d is not None:
+                            orc.append(dict(d, kind='statistics after keep_best differ from the independent fit of the winner on the same (X, y, weights)',
+                                            kept=res['self_key'], weights=spec.get('weights')))
         if spec['fitted'] and not spec['keep_best'] and pre is not None:
             post_obs = observe_fitted(gam, Q)
             diff = sorted(k for k in set(pre['obs']) | set(post_obs) if pre['obs'].get(k) != post_obs.get(k))
@@ -1441,6 +1576,75 @@ def gen_otherdata_specs(ctx, lits):
     return specs
 
 
+def gen_weight_specs(ctx, lits):
+    """sample weights of every kind handed to gridsearch (WEIGHT_PATTERNS; exact zeros = masked observations first): full product
+    class kind x pattern on fixed data in every run; objective, fitted / unfitted start, keep_best, return_scores and the grid
+    (lam 1-D / 2-D, n_splines, lam x n_splines) rotate with the case number.  Every candidate and the kept model are judged by
+    independent cold fits on the same (X, y, weights)."""
+    rng = ctx.subrng('real.weights')
+    quick = ctx.tier == 'quick'
+    specs = []
+
+    def terms_for(k):
+        t = [dict(kind='s', feature=0, n_splines=5 + k % 3, spline_order=3, lam=0.6), dict(kind='s', feature=1, n_splines=5 + k % 2, spline_order=3, lam=0.6)]
+        extra = {1: 'l', 4: 'f', 5: 'f'}.get(k % 8)      # (the n_splines grids below go to models of spline terms only)
+        if extra:
+            t.append(dict(kind=extra, feature=2, lam=0.6))
+        return t
+
+    def grids_for(k, terms):
+        T = slots_of(terms, 'lam')
+        j = k % 4
+        if j == 0 or (j >= 2 and slots_of(terms, 'n_splines') is None):
+            return [dict(param='lam', desc=dict(kind='1d', values=[[0.01, 100.0, 1.0], [1e3, 0.1, 10.0]][k % 8 // 4], container=['list', 'array'][k % 2]))]
+        if j == 1:
+            return [dict(param='lam', desc=dict(kind='2d', rows=[[[0.1, 10.0, 1.0][(r + i) % 3] for i in range(T)] for r in range(2 + k % 8 // 4)]))]
+        if j == 2:
+            return [dict(param='n_splines', desc=dict(kind='1d', values=[8, 5], container='list'))]
+        return [dict(param='lam', desc=dict(kind='1d', values=[0.05, 50.0], container='list')),
+                dict(param='n_splines', desc=dict(kind='1d', values=[7, 5], container='list'))]
+
+    def objectives_for(cls, pattern):
+        known = KNOWN_SCALE[cls]
+        objs = ['auto', None, 'UBRE' if known else 'GCV']
+        # On the unchanged tree the log-likelihood of the normal and the gamma family is -inf / nan as soon as one weight is
+        # exactly 0 (log_pdf divides the scale by the weight), so AIC / AICc of EVERY fit -- independent or not -- is inf / nan
+        # there and no candidate "attains a minimum": exactly these combinations carry no AIC / AICc objective (a matter of
+        # C06 / C08, not of the search).  PoissonGAM and LogisticGAM have finite likelihoods with zero weights: all objectives.
+        if not (pattern.startswith('zeros') and cls in ('LinearGAM', 'LinearGAM-known', 'GammaGAM')):
+            objs += ['AIC', 'AICc']
+        return objs
+
+    def one(k, cls, pattern, fitted, seed):
+        terms = terms_for(k)
+        objs = objectives_for(cls, pattern)
+        return dict(cls=cls, scale=0.05 if cls == 'LinearGAM-known' else None, terms=terms, n=[100, 120, 140][k % 3], d=3, data_seed=seed,
+                    fitted=fitted, keep_best=(k % 5 != 4), return_scores=(k % 3 != 2), objective=objs[k % len(objs)], grids=grids_for(k, terms),
+                    weights=pattern, exposure=(cls == 'PoissonGAM' and k % 2 == 0), tol=1e-8, max_iter=200)
+    k = 0
+    for cls in OPT_CLASSES:
+        for pattern in WEIGHT_PATTERNS:
+            for fitted in ((False, True) if pattern.startswith('zeros') and cls.startswith('LinearGAM') else (bool(k % 2),)):
+                k += 1
+                specs.append(one(k, cls, pattern, fitted, 900 + k))
+    # the shape of the demonstration of a masked sample: two smooth terms, 1-D lam grid, default objective, keep_best
+    for j, cls in enumerate(['LinearGAM', 'LogisticGAM']):
+        specs.append(dict(cls=cls, scale=None,
+                          terms=[dict(kind='s', feature=0, n_splines=8, spline_order=3, lam=0.6), dict(kind='s', feature=1, n_splines=8, spline_order=3, lam=0.6)],
+                          n=200, d=3, data_seed=990 + j, fitted=False, keep_best=True, return_scores=True, objective=None,
+                          grids=[dict(param='lam', desc=dict(kind='1d', values=[0.01, 1.0, 100.0, 1e4], container='array'))],
+                          weights='zeros-random', exposure=False, tol=1e-8, max_iter=200))
+    n_random = 8 if quick else 500
+    for _ in range(n_random):
+        k += 1
+        cls = rng.choice(OPT_CLASSES)
+        pattern = rng.choice(WEIGHT_PATTERNS + WEIGHT_PATTERNS[:5])
+        sp = one(rng.randrange(10 ** 4), cls, pattern, rng.random() < 0.5, rng.randrange(10 ** 6))
+        sp['n'] = rng.choice([90, 120, 150, 200])
+        specs.append(sp)
+    return specs
+
+
 def gen_objective_specs(ctx):
     """full product class kind x objective name x fitted on a tiny grid"""
     specs = []
@@ -1489,8 +1693,14 @@ def run_real(ctx, pygam, lits):
                       'fresh sample) vs model gridsearch; oracle: with keep_best=False, or when the fitted start stays the best, the model '
                       'is bit-for-bit itself afterwards (predict_mu and partial dependence at fixed query rows, edge_knots_ / n_splines / '
                       'n_coefs of every term, coef_, statistics_, hyper-parameters); candidates = independent cold fits on the search data')
+    st_w = 'search.weights'
+    ctx.stream(st_w, 'real gridsearch with sample weights of every kind (exact zeros at random rows / as counts / over a range of a feature / '
+                     'on most rows / on one row, tiny, scaled up / down, ones, fractional, heavy rows), class kind x pattern in every run, vs '
+                     'model gridsearch; oracle: every candidate = independent cold fit on the same (X, y, weights): score, coefficients, '
+                     "statistics_['n_samples'] exactly, edof / deviance / scale; kept model = arg-min of the independent fits, with its statistics")
     specs = [(st, s) for s in gen_real_specs(ctx, lits)] + [(st_obj, s) for s in gen_objective_specs(ctx)] + \
-            [(st_opt, s) for s in gen_opt_specs(ctx, lits)] + [(st_od, s) for s in gen_otherdata_specs(ctx, lits)]
+            [(st_opt, s) for s in gen_opt_specs(ctx, lits)] + [(st_od, s) for s in gen_otherdata_specs(ctx, lits)] + \
+            [(st_w, s) for s in gen_weight_specs(ctx, lits)]
     # admissible names: from a representative model of each class (public get_params) + plural names
     adm_cache = {}
     for _, s in specs:
@@ -1555,6 +1765,14 @@ def judge_real(ctx, stream, spec, res, prep, sout):
         ctx.count(stream + ' search data', spec['search_data'])
         if (res.get('notes') or {}).get('fitted start stayed the best'):
             ctx.count(stream + ' fitted start stayed the best (compared with itself before)', spec['search_data'])
+    if isinstance(spec.get('weights'), str):
+        sig['weight_pattern'] = spec['weights']
+        ctx.count(stream + ' weight pattern', spec['weights'])
+        kj = (res.get('notes') or {}).get('kept model judged by independent fits')
+        if kj is not None:
+            ctx.count(stream + ' kept model judged by the arg-min of the independent fits', bool(kj))
+    if res.get('n_nsamples_compared'):
+        ctx.count(stream + ' n_samples of candidates compared with independent fits', 'n', res['n_nsamples_compared'])
     for k, v in (res.get('cmp_classes') or {}).items():
         ctx.count(stream + ' candidate vs independent fit (in-search/cold)', k, v)
     ctx.count(stream + ' class', spec['cls'])
@@ -2035,7 +2253,8 @@ def run(ctx):
                          'objective x fitted x keep_best x return_scores x score script (ties / skips / inf / nan); real: the same with '
                          'real fits over 5 class kinds; optimiser: class kind x max_iter (1, 2, 3 ... 200) x tol x fitted, max_iter / tol '
                          'also as grid dimensions, grid as given and reversed, every candidate vs an independent cold fit with the '
-                         'same settings (score and coefficients, converged or not); '
+                         'same settings (score and coefficients, converged or not); weights: class kind x weight pattern (exact zeros '
+                         'at random rows / counts / a range / most rows / one row, tiny, scaled, ones, fractional, heavy) in every run; '
                          'distinct = distinct (stream, configuration signature); trivial = default grid, '
                          "objective auto, unfitted, keep_best (the library's own defaults)")
     ctx.partial.append('score_independent_partial: "each candidate\'s score equals the objective of an independently fitted model" is a '
@@ -2064,7 +2283,7 @@ def replay(ctx, rp):
     case = rp.get('case') or {}
     spec = case.get('spec')
     st = rp.get('stream')
-    if spec is None or st not in ('grid.scripted', 'search.real', 'objective.table', 'search.optimiser', 'search.otherdata'):
+    if spec is None or st not in ('grid.scripted', 'search.real', 'objective.table', 'search.optimiser', 'search.otherdata', 'search.weights'):
         return run(ctx)
     ctx.stream(st, 'replay')
     if st == 'grid.scripted':
